@@ -582,6 +582,11 @@ pub fn set_thorough_menus(on: bool) {
     THOROUGH_MENU.store(on, std::sync::atomic::Ordering::Relaxed);
 }
 
+/// Is the thorough tier running? (mask menus, and the scope of the R9 selector in 2D)
+pub fn thorough_tier() -> bool {
+    THOROUGH_MENU.load(std::sync::atomic::Ordering::Relaxed)
+}
+
 /// Evenly spaced indices of 0..n (at most k of them, first and last included).
 fn spaced(n: usize, k: usize) -> Vec<usize> {
     if n <= k {
